@@ -2,6 +2,8 @@
 from . import rules_layout as RL
 from . import rules_select as RS
 from . import rules_guard as RG
+from . import rules_unsafe as RU
+from . import rules_effect as RE
 from .facts import AnchorMissing
 
 TRUSTED = [
@@ -91,4 +93,58 @@ def c17(ctx):
     )
 
 
-PROPS = {"C20": c20, "C16": c16, "C17": c17}
+def c04(ctx):
+    prog = ctx.prog("dev")
+    n2 = RU.rule_r2(ctx, prog)
+    ctx.floor("R2", n2, 3, "from_shape_ptr sites")
+    RU.rule_cast_guards(ctx, prog)
+    n3 = RU.rule_r3(ctx, prog)
+    ctx.floor("R3", n3, 40, "unsafe constructs (blocks + unsafe fns)")
+    n11 = RU.rule_r11_notnone(ctx, prog)
+    ctx.floor("R11", n11, 3, "NotNone constructions")
+    n14 = RU.rule_r14(ctx, prog)
+    ctx.floor("R14", n14, 4, "rand call sites")
+    # the 14 element types: every MaybeNan impl's remove_nan_mut goes through the same audited path
+    impls = [b for b in prog.bodies.values() if b.name == "remove_nan_mut" and " as maybe_nan::MaybeNan>" in b.key]
+    ctx.floor("R3", len(impls), 14, "MaybeNan::remove_nan_mut impls (f32, f64, 12 Option types)")
+    # determinism: no randomness reachable from maybe_nan
+    for b in prog.bodies.values():
+        if b.key.startswith("maybe_nan::") or " as maybe_nan::" in b.key:
+            for bb, t in b.calls():
+                if t["callee"].get("krate") in ("rand", "rand_core"):
+                    ctx.ob("R14", "%s/deterministic" % b.key, False, b.where(bb, "term"), "randomness inside maybe_nan", what="nondeterminism")
+    return dict(
+        level="other",
+        explanation="Soundness conditions of the unsafe re-typing behind NaN removal, decided on MIR/HIR for all 14 element types: "
+                    "(R2) every from_shape_ptr takes pointer, length and stride from one source view (stride 0 only under len<=1, "
+                    "negative strides via offset (len-1)*stride + invert_axis), size/align asserts dominate the pointer cast, NotNone is "
+                    "repr(transparent) with a private field; (R3) every unsafe block/fn is in the audited inventory and tied to its guard "
+                    "(cast only of the compacted view, cast to NotNone only where is_none() is false, unreachable_unchecked only in the "
+                    "None arm); (R11) NotNone is only built from values known Some; (R14) no randomness. Not decided: the loop invariant "
+                    "of the two-pointer compaction (that the prefix holds exactly the non-missing elements) and idempotence.",
+    )
+
+
+def c03(ctx):
+    prog = ctx.prog("dev")
+    RE.rule_r4(ctx, prog)
+    n2 = RU.rule_r2(ctx, prog)
+    ctx.floor("R2", n2, 3, "from_shape_ptr sites")
+    RU.rule_cast_guards(ctx, prog)
+    # parametricity (recorded, informational for C02/C15): selection is bounded by exactly Ord + Clone on A
+    for nme in ("partition_mut", "get_from_sorted_mut", "get_many_from_sorted_mut"):
+        b = prog.method("Sort1dExt", nme)
+        a_bounds = sorted(p for p in b.raw["preds"] if p.startswith("A: ") and "Sized" not in p)
+        ctx.note("%s: element bounds %s" % (nme, a_bounds))
+    return dict(
+        level="proof",
+        explanation="Effect discipline sufficient for 'only permutes the lanes it was given', decided over the call graph reachable from the "
+                    "mutating entry points along edges that pass a mutable array handle: every use of a caller-owned mutable handle is "
+                    "ArrayBase::swap, a re-view onto the same elements, a traversal whose closure is checked with the right parameters "
+                    "caller-owned, a checked family member, the audited raw helper (R2: rebuilt views cover exactly the source elements) "
+                    "or the user's own callback; no store goes through an element reference of caller data. Lanes produced by "
+                    "lanes_mut/map_axis_mut are disjoint (ndarray contract), so nothing moves between lanes or outside the view.",
+    )
+
+
+PROPS = {"C20": c20, "C16": c16, "C17": c17, "C04": c04, "C03": c03}
